@@ -187,12 +187,18 @@ def handleCloseError (env : Env) (ce : CloseError) : List Effect :=
   ++ [.routing (routingOf env.persp env.sentFirstPacket ce)]
   ++ [.connIDManagerClose]
 
+/-- `errors.As(closeErr.err, &errCloseForRecreating)` (false for nil) -/
+def CloseError.isRecreate (ce : CloseError) : Bool :=
+  match ce.err with
+  | some e => e.asRecreate
+  | none => false
+
 /-- statements after `runLoop:` in `Conn.run` plus the deferred `ctxCancel` -/
 def runTail (env : Env) (ce : CloseError) : List Effect :=
   let cl := classify ce
   [.cryptoClose, .sendQueueClose]
   ++ handleCloseError env ce
-  ++ (if env.hasQlog && !(match ce.err with | some e => e.asRecreate | none => false) then [.qlogClose] else [])
+  ++ (if env.hasQlog && !ce.isRecreate then [.qlogClose] else [])
   ++ [.timerStop, .ctxCancel cl.ret]
 
 /-! ### closed_conn.go -/
